@@ -231,7 +231,7 @@ def run_property(pid, tier, seed, workers=None, quiet=False):
     out = []
     out.append(
         f"[{pid}] tier={tier} seed={seed} cases={len(results)}/{len(cases)} "
-        f"distinct_nontrivial={len(sigs)} monitor_evaluations={total_checks} wall={wall:.1f}s"
+        f"evaluations={cov['evaluations']} distinct_nontrivial={cov['distinct_nontrivial']} monitor_evaluations={total_checks} wall={wall:.1f}s"
     )
     top = ", ".join(f"{k}={v}" for k, v in counts.most_common(10))
     out.append(f"[{pid}] observed: {top}")
